@@ -77,3 +77,15 @@ class VLoop(base_events.BaseEventLoop):
             self._ready.append(handle)
             return True
         return False
+
+
+def advance(loop, seconds):
+    """Let `seconds` of virtual time pass: fire every timer that falls due, in order."""
+    deadline = loop._vtime + seconds
+    while loop._scheduled:
+        live = [h for h in loop._scheduled if not h._cancelled]
+        if not live or min(h._when for h in live) > deadline:
+            break
+        loop.fire_next_timer()
+        loop.run_ready()
+    loop._vtime = max(loop._vtime, deadline)
